@@ -17,7 +17,7 @@ from ..skel import outcomes
 from .common import (call_name, enclosing_loops, iteration_segments, path_must, reaching_value,
                      short, stmt_contains)
 
-FLOORS = {'C05.L1': 1, 'C05.L2': 10, 'C05.L3': 2, 'C05.L4a': 4, 'C05.L4b': 4, 'C05.L6': 3}
+FLOORS = {'C05.L1': 1, 'C05.L2': 10, 'C05.L3': 2, 'C05.L4a': 4, 'C05.L4b': 4, 'C05.L6': 1}
 
 COUNTER = 'Scheduler.provision_ingest'
 STORED = {"HotBuffer.observations['stored']", "ColdBuffer.observations['stored']"}
@@ -64,6 +64,11 @@ def check(repo, res, tier):
                        'machine back -- a task reported finished early lets the scheduler release a reservation that still '
                        'has a busy machine, after which no later workflow can be provisioned')
     borrow(repo, res, tier, c04, {'C04.T2'}, 'C05.L7')
+    from . import c09, c18
+    res.rule('C05.L8', 'adopted C09.R4 (a reservation gets its machines back, so it can be dropped and a later workflow provisioned) '
+                       'and C18.V8 (the pending hot-to-cold volume returns to 0, so a hot buffer over its threshold unblocks)')
+    borrow(repo, res, tier, c09, {'C09.R4'}, 'C05.L8')
+    borrow(repo, res, tier, c18, {'C18.V8'}, 'C05.L8')
 
 
 # ---------------------------------------------------------------------- L1
